@@ -79,6 +79,7 @@ static a_size o_num(obj *o) { return o->kind == 1 ? o->v.num_ : o->b->num_; }
 static a_size o_mem(obj *o) { return o->kind == 1 ? o->v.mem_ : o->b->mem_; }
 static a_size o_siz(obj *o) { return o->kind == 1 ? o->v.siz_ : o->b->siz_; }
 
+static int mat_owned0, fault_noretry;
 static void materialise(obj *o, int kind, int siz, int mem, int n, int const *seq)
 {
     o->kind = kind;
@@ -87,7 +88,9 @@ static void materialise(obj *o, int kind, int siz, int mem, int n, int const *se
         o->v.siz_ = (a_size)siz;
         o->v.mem_ = (a_size)mem;
         o->v.num_ = (a_size)n;
-        o->v.ptr_ = mem ? a_alloc(NULL, (a_size)siz * (a_size)mem) : NULL;
+        /* capacity zero has two concrete forms: no block at all, or (after a change to an element size larger than the
+           whole block) a block that holds no element; mat_owned0 selects the second */
+        o->v.ptr_ = mem ? a_alloc(NULL, (a_size)siz * (a_size)mem) : mat_owned0 ? a_alloc(NULL, 8) : NULL;
         o->b = NULL;
     }
     else
@@ -265,6 +268,12 @@ static int fault_edge(edge const *e, long single, long from)
     project_obj(&o, &pnum, &pmem, &psiz, pseq);
     fprintf(f, ",\"fail\":{\"ret_fail\":%d,\"num\":%d,\"mem\":%d,\"siz\":%d,\"seq\":", ret_fail, pnum, pmem, psiz);
     put_seq(f, pseq, pnum > 0 ? pnum : 0);
+    if (fault_noretry)
+    {
+        /* the container is destroyed right after the failed call */
+        fprintf(f, "},\"noretry\":1,\"owned0\":%d,\"retry\":{\"ok\":0", mat_owned0);
+        goto destroy_it;
+    }
     /* retry with a healthy allocator */
     p = NULL; rc = 0;
     oldnum = o_num(&o);
@@ -280,8 +289,9 @@ static int fault_edge(edge const *e, long single, long from)
     }
     (void)rval;
     project_obj(&o, &pnum, &pmem, &psiz, pseq);
-    fprintf(f, "},\"retry\":{\"ok\":%d,\"num\":%d,\"mem\":%d,\"seq\":", retry_ok, pnum, pmem);
+    fprintf(f, "},\"owned0\":%d,\"retry\":{\"ok\":%d,\"num\":%d,\"mem\":%d,\"seq\":", mat_owned0, retry_ok, pnum, pmem);
     put_seq(f, pseq, pnum > 0 ? pnum : 0);
+destroy_it:
     fputs("},\"expected\":", f);
     put_seq(f, e->seq2, e->n2);
     destroy(&o);
@@ -545,7 +555,24 @@ int main(int argc, char **argv)
             {
                 if ((rc = fault_edge(&e, k, 0)) != 0) { return rc; }
                 if (k < R && (rc = fault_edge(&e, 0, k)) != 0) { return rc; } /* from(R) == single(R) */
+                /* a vector without capacity: the same plans on the other concrete form (an owned block holding no element) */
+                if (e.kind == 1 && e.mem == 0)
+                {
+                    mat_owned0 = 1;
+                    if ((rc = fault_edge(&e, k, 0)) != 0) { return rc; }
+                    mat_owned0 = 0;
+                }
             }
+            /* destruction right after the failed call, without the retry (all requests fail), on both concrete forms */
+            fault_noretry = 1;
+            if ((rc = fault_edge(&e, 0, 1)) != 0) { return rc; }
+            if (e.kind == 1 && e.mem == 0)
+            {
+                mat_owned0 = 1;
+                if ((rc = fault_edge(&e, 0, 1)) != 0) { return rc; }
+                mat_owned0 = 0;
+            }
+            fault_noretry = 0;
         }
     }
     for (int i = 0; i < nb; ++i) { fclose(fo[i]); }
